@@ -96,6 +96,31 @@ def run(ctx):
         ok = bool(closes) and bool(relay_blocks) and all(any(fb.dominates(rb, cb) for rb in relay_blocks) for cb in closes) and \
             not any(fb.can_reach(cb, rb) for cb in closes for rb in relay_blocks[:1])
         ctx.ob("D2", b.defp, "quic-close-after-relay", loc(b.sp), ok, "QuicStream::close (finish + wait for stop) follows the relay" if ok else "the QUIC stream is not closed after the relay")
+    # D8 once the relay of a flow has returned, releasing the flow must not wait for the peer: an un-bounded close / flush / send on the inbound
+    # sink after the relay blocks for as long as the client does not read, and the flow's task and socket stay for that long
+    n_after = 0
+    for b in bodies:
+        if not b.defp.startswith("octo_squirrel_server") or b.root in hroots:
+            continue
+        fb = prog.flat(b.defp, max_depth=2)
+        relay_blocks = [i for i in fb.rpo() if prog.body(fb.origin[i]) is not None and prog.body(fb.origin[i]).root in hroots]
+        if not relay_blocks:
+            continue
+        n_after += 1
+        for (blk, c, t) in fb.calls():
+            if prog.body(fb.origin[blk]) is None or prog.body(fb.origin[blk]).root in hroots:
+                continue
+            if c.name not in ("SinkExt::close", "SinkExt::flush", "SinkExt::send", "SinkExt::feed", "AsyncWriteExt::shutdown", "AsyncWriteExt::flush", "AsyncWriteExt::write_all"):
+                continue
+            if not any(fb.can_reach(rb, blk) for rb in relay_blocks[-3:]) or any(fb.can_reach(blk, rb) for rb in relay_blocks[:1]):
+                continue
+            fwd, fcalls, _ = fb.slice_fwd([t["dest"][0]])
+            bounded = any("time::timeout" in cc.target or cc.name.endswith("timeout") for (_, cc, _, _) in fcalls)
+            ctx.ob("D8", prog.body(fb.origin[blk]).defp, f"release-does-not-wait-for-the-peer:{c.method}", loc(t["sp"]), bounded,
+                   f"{c.name} after the relay is bounded by a timeout" if bounded else
+                   f"after the relay has returned the flow still awaits `{c.name}` on its inbound half with no bound: it has to flush what is queued for a client that may never read, "
+                   "so the task, the socket and the descriptor of the flow are held for as long as that client stays connected")
+    ctx.floor("D8", "server functions that run a relay and then return", 2, n_after)
     qc = [b for b in bodies if "QuicStream::close" in prog.display(b.defp) and any(c.method in ("finish", "stopped") for (_, c, _) in b.calls())]
     ctx.floor("D2", "QuicStream::close body", 1, len(qc))
     for b in qc:
